@@ -2,6 +2,7 @@ package core
 
 import (
 	"fmt"
+	"go/types"
 
 	"golang.org/x/tools/go/ssa"
 )
@@ -220,4 +221,201 @@ func DeleteBeforeRecursion(p *Prog, fn *ssa.Function, key string) (bool, string)
 		}
 	}
 	return true, fmt.Sprintf("delete(…, %q) precedes all %d recursive call(s)", key, len(recCalls))
+}
+
+// setCall recognises S.Has(k) / S.Add(k) on utils.Set (a map type with methods): returns the set and key operands.
+func setCall(in ssa.Instruction, method string) (set, key ssa.Value, ok bool) {
+	call, isCall := in.(*ssa.Call)
+	if !isCall {
+		return nil, nil, false
+	}
+	callee := call.Call.StaticCallee()
+	if callee == nil || callee.Name() != method || len(call.Call.Args) != 2 || callee.Signature.Recv() == nil {
+		return nil, nil, false
+	}
+	if !isSetType(call.Call.Args[0].Type()) {
+		return nil, nil, false
+	}
+	return call.Call.Args[0], call.Call.Args[1], true
+}
+
+func isSetType(t types.Type) bool {
+	n, ok := t.(*types.Named)
+	return ok && n.Obj().Name() == "Set" && n.Obj().Pkg() != nil && Rel(n.Obj().Pkg().Path()) == "utils"
+}
+
+// GuardedRecursion checks the in-use-set idiom of fn: every call from fn into its own recursive component is preceded
+// on every path by S.Add(k) on a set selected by isSet, and every such Add is excluded by a test S.Has(k) on the same
+// set and key (when the test holds, the Add is not reached).
+func GuardedRecursion(p *Prog, fn *ssa.Function, isSet func(ssa.Value) bool) (bool, string) {
+	scc := p.SCCOf(fn)
+	var recCalls []ssa.Instruction
+	var adds []*ssa.Call
+	Instrs(fn, func(in ssa.Instruction) {
+		if c, ok := in.(ssa.CallInstruction); ok {
+			if callee := c.Common().StaticCallee(); callee != nil && scc[callee] {
+				recCalls = append(recCalls, in)
+			}
+		}
+		if s, _, ok := setCall(in, "Add"); ok && isSet(s) {
+			adds = append(adds, in.(*ssa.Call))
+		}
+	})
+	if len(recCalls) == 0 {
+		return false, "no recursive call found"
+	}
+	if len(adds) == 0 {
+		return false, "no insertion into the in-use set found"
+	}
+	isAdd := func(in ssa.Instruction) bool {
+		for _, a := range adds {
+			if in == ssa.Instruction(a) {
+				return true
+			}
+		}
+		return false
+	}
+	for _, rc := range recCalls {
+		if ok, _ := MustPassThrough(fn, isAdd, func(in ssa.Instruction) bool { return in == rc }); !ok {
+			return false, fmt.Sprintf("the recursive call at %s is reachable on a path that records nothing in the in-use set", p.Pos(rc.Pos()))
+		}
+	}
+	for _, a := range adds {
+		_, key, _ := setCall(a, "Add")
+		guarded := false
+		for _, atom := range CondAtoms(fn) {
+			in, ok := atom.(ssa.Instruction)
+			if !ok {
+				continue
+			}
+			s, k, ok := setCall(in, "Has")
+			if !ok || !isSet(s) || !(sameValue(k, key) || ResolveLoad(k) == ResolveLoad(key) || stableLoads(k, key)) {
+				continue
+			}
+			if !ForwardReach(fn.Blocks[0], map[ssa.Value]bool{atom: true}, nil)[a.Block()] {
+				guarded = true
+			}
+		}
+		if !guarded {
+			return false, fmt.Sprintf("the insertion at %s is not excluded by a membership test on the same key", p.Pos(a.Pos()))
+		}
+	}
+	return true, fmt.Sprintf("%d recursive call(s) each preceded by an insertion into the in-use set; %d insertion(s) each excluded when the key is already in the set", len(recCalls), len(adds))
+}
+
+// SetGuardedResolver checks fn(name, S): when S.Has(name) holds no non-nil result is returned, and every non-nil
+// result is returned after S.Add(name).
+func SetGuardedResolver(p *Prog, fn *ssa.Function) (bool, string) {
+	var has ssa.Value
+	var key ssa.Value
+	for _, atom := range CondAtoms(fn) {
+		if in, ok := atom.(ssa.Instruction); ok {
+			if _, k, ok := setCall(in, "Has"); ok {
+				if _, isPar := k.(*ssa.Parameter); isPar && has == nil {
+					has, key = atom, k
+				}
+			}
+		}
+	}
+	if has == nil {
+		return false, "no membership test of a parameter in a set found"
+	}
+	var nonNil []ssa.Instruction
+	Instrs(fn, func(in ssa.Instruction) {
+		if r, ok := in.(*ssa.Return); ok && len(r.Results) > 0 {
+			if c, isC := r.Results[0].(*ssa.Const); isC && c.Value == nil {
+				return
+			}
+			nonNil = append(nonNil, in)
+		}
+	})
+	if len(nonNil) == 0 {
+		return false, "no non-nil return found"
+	}
+	// what follows the test when it holds (paths that never evaluate the test have a fresh set)
+	hb := atomBlock(fn, has)
+	ifi, isIf := hb.Instrs[len(hb.Instrs)-1].(*ssa.If)
+	if !isIf {
+		return false, "the membership test does not decide a branch"
+	}
+	_, neg := normCond(ifi.Cond)
+	from := hb.Succs[0]
+	if neg {
+		from = hb.Succs[1]
+	}
+	reach := ForwardReach(from, map[ssa.Value]bool{has: true}, nil)
+	for _, r := range nonNil {
+		if reach[r.Block()] {
+			return false, fmt.Sprintf("a non-nil result is returned at %s although the name is already in the set", p.Pos(r.Pos()))
+		}
+	}
+	isAdd := func(in ssa.Instruction) bool {
+		_, k, ok := setCall(in, "Add")
+		return ok && k == key
+	}
+	for _, r := range nonNil {
+		if ok, _ := MustPassThrough(fn, isAdd, func(in ssa.Instruction) bool { return in == r }); !ok {
+			return false, fmt.Sprintf("the non-nil return at %s is reachable without recording the name in the set", p.Pos(r.Pos()))
+		}
+	}
+	return true, fmt.Sprintf("Has(name) excludes the %d non-nil return(s); Add(name) precedes each of them", len(nonNil))
+}
+
+// stableLoads: a and b load the same local variable and no store into it can execute after the first of the two loads.
+func stableLoads(a, b ssa.Value) bool {
+	ua, ok1 := a.(*ssa.UnOp)
+	ub, ok2 := b.(*ssa.UnOp)
+	if !ok1 || !ok2 || ua.X != ub.X {
+		return false
+	}
+	al, ok := ua.X.(*ssa.Alloc)
+	if !ok || al.Referrers() == nil {
+		return false
+	}
+	for _, first := range []*ssa.UnOp{ua, ub} {
+		other := ub
+		if first == ub {
+			other = ua
+		}
+		if !(first.Block() == other.Block() || first.Block().Dominates(other.Block())) {
+			continue
+		}
+		// blocks reachable from first's block
+		seen := map[*ssa.BasicBlock]bool{}
+		work := append([]*ssa.BasicBlock{}, first.Block().Succs...)
+		for len(work) > 0 {
+			x := work[len(work)-1]
+			work = work[:len(work)-1]
+			if seen[x] {
+				continue
+			}
+			seen[x] = true
+			work = append(work, x.Succs...)
+		}
+		ok := true
+		for _, r := range *al.Referrers() {
+			st, isStore := r.(*ssa.Store)
+			if !isStore || st.Addr != ssa.Value(al) {
+				continue
+			}
+			if seen[st.Block()] {
+				ok = false
+			}
+			if st.Block() == first.Block() {
+				after := false
+				for _, in := range first.Block().Instrs {
+					if in == ssa.Instruction(first) {
+						after = true
+					}
+					if after && in == ssa.Instruction(st) {
+						ok = false
+					}
+				}
+			}
+		}
+		if ok {
+			return true
+		}
+	}
+	return false
 }
